@@ -159,6 +159,27 @@ def check_restart_clamp(ctx):
               "a restart offset from disk is clamped to the restart array start", "restart offset clamp changed")
 
 
+def check_wide_sum(ctx):
+    """decode_entry: non_shared + value_length are two 32-bit values from disk;
+    their sum must be formed in 64 bits or it wraps and passes the bound."""
+    f = ctx.fn("decode_entry", BLK)
+    found = None
+    for blk in f.blocks.values():
+        c = strip_casts(blk.term.get("cond")) if blk.term is not None and "cond" in blk.term else None
+        if isinstance(c, dict) and c.get("k") == "bin" and c["op"] in ("<", ">=", ">", "<="):
+            for side in (c["l"], c["r"]):
+                s2 = side
+                while isinstance(s2, dict) and s2.get("k") == "cast" and s2.get("x", {}).get("k") != "un":
+                    s2 = s2["x"]
+                if isinstance(s2, dict) and s2.get("k") == "bin" and s2["op"] == "+" and "non_shared" in key(s2) and "value_length" in key(s2):
+                    found = s2
+    ctx.require(found is not None, "decode_entry: length bound comparison not found")
+    wide = ("uint64_t", "size_t", "unsigned long", "unsigned long long")
+    ok = any(isinstance(x, dict) and x.get("k") == "cast" and x.get("t") in wide for x in (found["l"], found["r"]))
+    ctx.check(ok, "T2-decoder-guard", "decode_entry:sum-in-64-bits", f.name, f.loc,
+              "non_shared + value_length is added in 64 bits", "the two 32-bit lengths are added in 32 bits: the sum can wrap past the bound")
+
+
 def check_decode_int(ctx):
     """x*10 + d cannot overflow: the multiplication is reachable only across
     an edge establishing x <= limit and not (x == limit and ch > last)."""
@@ -357,6 +378,7 @@ def check_parse_results(ctx):
 def check(ctx):
     check_rows(ctx)
     check_restart_clamp(ctx)
+    check_wide_sum(ctx)
     check_decode_int(ctx)
     check_cursor_pairs(ctx)
     check_arith(ctx)
